@@ -27,7 +27,9 @@ def _inv_index(lv):
     c = lv.ctx
     wire = lv.env['wire'][1]; L = lv.dom[1]
     j = Int('jq_ew')
-    return [('C03', 'counter-is-position', lv.cur['i'][1] == lv.i),
+    # the position counter of the hand-written form; with `for k, w in enumerate(...)` the position is the loop target itself
+    counter = [('C03', 'counter-is-position', lv.cur['i'][1] == lv.i)] if 'i' in lv.cur and lv.cur['i'][0] == 'int' else []
+    return counter + [
             ('C03', 'not-found-so-far', ForAll([j], Implies(And(0 <= j, j < lv.i), c.at(L, j) != wire), patterns=[c.at(L, j)]))]
 
 
